@@ -90,6 +90,8 @@ static const char *g_solo_what;
 static unsigned g_sigmask;
 static void (*g_sighandler)(void);
 static int g_child_of_fork;
+static int g_noprune;
+static unsigned long g_path_hash;	/* hash of the deviations consumed so far */
 
 unsigned long vrt_param_qs_attempts = 100, vrt_param_wait_attempts = 1000,
 	vrt_param_defer_queue_size = 1 << 12, vrt_param_min_partition_order = 12,
@@ -237,6 +239,7 @@ static int choose(int n, const uint8_t *cost)
 			       idx, alt, n, wk->d[g_devpos].cost, alt < n ? cost[alt] : -1);
 		if (cost[alt] != C_FREE)
 			g_remain[cost[alt]]--;
+		g_path_hash = vrt_mix(g_path_hash, ((unsigned long)idx << 8) | (unsigned long)alt);
 		g_devpos++;
 		if (g_devpos == wk->n)
 			res->first_free_step = g_step;
@@ -300,6 +303,46 @@ int vrt_choose(int n)
 		return hi * MAXALT + lo;
 	}
 	return n > 1 ? choose(n, c) : 0;
+}
+
+int vrt_state_seen(unsigned long key, int remaining)
+{
+	unsigned long pid = vrt_mix(g_path_hash, g_choice) & ~0xffUL, meta;
+	unsigned long h;
+	int n;
+
+	if (!vrt_seen_tab || g_noprune)
+		return 0;
+	if (!key)
+		key = 1;
+	h = (key * 0x9e3779b97f4a7c15UL) >> 42;	/* 22 bits */
+	for (n = 0; n < 64; n++, h = (h + 1) & (SEEN_SLOTS - 1)) {
+		struct seen_slot *s = &vrt_seen_tab[h];
+		unsigned long k = __atomic_load_n(&s->key, __ATOMIC_ACQUIRE);
+
+		if (!k) {
+			unsigned long exp = 0;
+
+			if (!__atomic_compare_exchange_n(&s->key, &exp, key, 0, __ATOMIC_ACQ_REL, __ATOMIC_ACQUIRE)) {
+				if (exp != key)
+					continue;
+			} else {
+				__atomic_store_n(&s->meta, pid | (unsigned long)(remaining & 0xff), __ATOMIC_RELEASE);
+				return 0;
+			}
+		} else if (k != key)
+			continue;
+		meta = __atomic_load_n(&s->meta, __ATOMIC_ACQUIRE);
+		if ((meta & ~0xffUL) == pid)
+			return 0;		/* the same path being re-executed (prefix of a child) */
+		if ((int)(meta & 0xff) >= remaining && meta) {
+			res->pruned = 1;
+			finish(ST_OK, "pruned: canonical state already expanded");
+		}
+		__atomic_store_n(&s->meta, pid | (unsigned long)(remaining & 0xff), __ATOMIC_RELEASE);
+		return 0;
+	}
+	return 0;	/* neighbourhood full: just do not prune */
 }
 
 #include "vrt_mem.inc"
